@@ -1,5 +1,4 @@
 package main
 
-func runCheck(repo, verif, prop, tier, keep string, claim bool) int { return 2 }
-func runReplayFile(repo, verif, path string) int                  { return 2 }
-func runSelftest(repo, verif string, args []string) int           { return 2 }
+func checkLemmas(w *World, ps *PropSpec, tier string, seed int) []*Result { return nil }
+func runSelftest(repo, verif string, args []string) int                 { return 2 }
